@@ -11,52 +11,94 @@ QUICK = [
     (2, 3, 1, False, ("request_headers", "response_complete", "transaction_complete", "response_body_data", "request_line")),
     (2, 3, 1, True, ("request_start", "response_headers", "request_complete", "request_body_data", "response_line")),
 ]
+HA = ("request_headers", "response_complete", "transaction_complete", "response_body_data", "request_line")
+HB = ("request_start", "response_headers", "request_complete", "request_body_data", "response_line")
 THOROUGH = QUICK + [
     (1, 4, 2, False, ("request_headers",)),      # found D25 and D26 (sticky STOP / ERROR overwritten), fixed in d96bd29 / 8c453f4
     (2, 3, 2, False, ()),
-    (2, 4, 2, False, ()),
-    (2, 3, 2, True, ("request_headers", "response_complete", "transaction_complete")),
-    (3, 5, 1, False, ()),
+    (2, 5, 1, False, ()),                         # found D21 (header data after RESPONSE_COMPLETE behind an interim 100), fixed in 3989183
+    (2, 4, 1, False, HA),
+    (2, 4, 1, True, HB),
+    (2, 3, 2, True, ("request_headers", "response_complete", "transaction_complete")),      # 16 M states
     (3, 4, 1, True, ("request_headers", "response_body_data", "request_complete", "response_start")),
+    (2, 4, 2, False, ()),                         # 88 M states, ~20 min
 ]
+ALL_PLAIN = ["C05", "C09", "C16", "C10"]          # properties whose clauses are invariants of the model
+ALL_CBFAIL = ["C09", "C16"]                       # C05 / C10 are not quantified over callback results
+CACHE = os.path.join(vlib.VERIF, ".work", "mccache")
+
+
+def _key(cfg, invs):
+    import hashlib
+    h = hashlib.sha1()
+    for f in sorted(os.listdir(vlib.SPEC)):
+        if f.endswith(".tla") and f != "HtpKnown.tla":
+            h.update(f.encode()); h.update(open(os.path.join(vlib.SPEC, f), "rb").read())
+    h.update(vlib.known_module_text().encode()); h.update(repr((cfg, invs)).encode())
+    return h.hexdigest()[:24]
 
 
 def run_parser_model(ctx, props, cbfail_ok=True):
     """Runs the bounded configurations; a violated invariant becomes a violation record of the property.
-    cbfail_ok=False skips configurations whose callbacks may fail (properties not quantified over callback results)."""
+    cbfail_ok=False skips configurations whose callbacks may fail (properties not quantified over callback results).
+    The state graph does not depend on which property asks: a configuration is explored once with the invariants of ALL properties it is
+    quantified for and the clean result is kept under .work/mccache keyed by the hash of every specification module, the known-findings
+    set and the configuration, so the checks of C05 / C09 / C10 / C16 share one exploration.  A cached result is only used when it is
+    clean; if TLC stopped at an invariant of another property the configuration is explored again with this property's invariants only."""
+    import json
     d = vlib.spec_workdir(ctx)
     cfgs = [c for c in (QUICK if ctx.quick else THOROUGH) if cbfail_ok or not c[4]]
-    invs = " ".join("Inv_" + p for p in props)
+    own = ["Inv_" + p for p in props]
+    os.makedirs(CACHE, exist_ok=True)
 
-    def one(i):
-        mt, mc, ma, ad, cf = cfgs[i]
-        name = "pmc_%d" % i
+    def explore(i, c, invs, tag):
+        mt, mc, ma, ad, cf = c
+        name = "pmc_%d%s" % (i, tag)
         cfgp = os.path.join(d, name + ".cfg")
         open(cfgp, "w").write(
             "CONSTANTS MaxTx = %d  MaxCalls = %d  MaxAvail = %d  AutoDestroy = %s  FixD4 = FALSE  TraceMode = FALSE\n"
             " CbFail = {%s}\n Known <- KnownSet\nSPECIFICATION Spec\nINVARIANTS %s TypeOK\nVIEW View\nCHECK_DEADLOCK FALSE\n"
-            % (mt, mc, ma, "TRUE" if ad else "FALSE", ", ".join('"%s"' % x for x in cf), invs))
-        return vlib.run_tlc(ctx, "HtpParserMC", cfgp, workers=4 if ctx.quick else 8, timeout=600 if ctx.quick else 3000, xmx="6g" if ctx.quick else "12g",
-                            name=name, cwd=d, coverage=True)
-    res = vlib.pmap(one, range(len(cfgs)), nproc=4 if ctx.quick else 2)
-    distinct = generated = 0
-    never = None
-    for c, r in zip(cfgs, res):
+            % (mt, mc, ma, "TRUE" if ad else "FALSE", ", ".join('"%s"' % x for x in cf), " ".join(invs)))
+        r = vlib.run_tlc(ctx, "HtpParserMC", cfgp, workers=4 if ctx.quick else 8, timeout=600 if ctx.quick else 5000, xmx="6g" if ctx.quick else "16g",
+                         name=name, cwd=d, coverage=True)
         if r.error:
             sys.stdout.write(r.out[-3000:])
             raise vlib.Infra("model checking HtpParser failed: %s (config %s)" % (r.error, c))
-        distinct += r.distinct; generated += r.generated
-        for inv in r.violated:
-            m = re.search(r"viol \|-> (\{[^}]*\})", r.out[r.out.rfind("State "):])
-            ctx.violations.append({"clause": "Model:" + inv, "sites": [], "cls": "model",
-                                   "what": "TLC violates %s on the bounded model %s; last state viol=%s" % (inv, c, m.group(1) if m else "?"),
-                                   "counterexample_tail": r.out[-6000:]})
+        m = re.search(r"viol \|-> (\{[^}]*\})", r.out[r.out.rfind("State "):]) if r.violated else None
         dead = [a for a, (taken, gen) in r.cover.items() if taken == 0 and a in ("StepBegin", "CbStep", "RetStep", "EndCallStep", "DataEnter")]
-        if dead:
-            never = "actions never taken in config %s: %s" % (c, dead)
-    return {"distinct": distinct, "generated": generated, "vacuous": never,
+        return {"distinct": r.distinct, "generated": r.generated, "violated": r.violated, "viol": m.group(1) if m else None,
+                "tail": r.out[-6000:] if r.violated else "", "dead": dead, "wall_s": round(r.wall, 1)}
+
+    def one(i):
+        c = cfgs[i]
+        allinv = ["Inv_" + p for p in (ALL_CBFAIL if c[4] else ALL_PLAIN)] + ["Inv_TxBound"]
+        kf = os.path.join(CACHE, _key(c, allinv) + ".json")
+        if os.path.exists(kf):
+            e = json.load(open(kf)); e["cached"] = True
+            return e
+        e = explore(i, c, allinv, "")
+        foreign = [v for v in e["violated"] if v not in own and v != "TypeOK"]
+        if foreign:          # TLC stopped at another property's invariant: this property's invariants have not been checked on the whole graph
+            e = explore(i, c, own + ["Inv_TxBound"], "o")
+        elif not e["violated"]:
+            json.dump(e, open(kf, "w"))
+        e["cached"] = False
+        return e
+    res = vlib.pmap(one, range(len(cfgs)), nproc=4 if ctx.quick else 2)
+    distinct = generated = 0
+    never = None
+    for c, e in zip(cfgs, res):
+        distinct += e["distinct"]; generated += e["generated"]
+        for inv in e["violated"]:
+            if inv in own or inv in ("TypeOK", "Inv_TxBound"):
+                ctx.violations.append({"clause": "Model:" + inv, "sites": [], "cls": "model",
+                                       "what": "TLC violates %s on the bounded model %s; last state viol=%s" % (inv, c, e["viol"]),
+                                       "counterexample_tail": e["tail"]})
+        if e["dead"]:
+            never = "actions never taken in config %s: %s" % (c, e["dead"])
+    return {"distinct": distinct, "generated": generated, "vacuous": never, "shared_results_reused": sum(1 for e in res if e.get("cached")),
             "what": "HtpParser.tla + HtpObs clauses %s as invariants over %d bounded configurations (MaxTx, MaxCalls, MaxAvail, AutoDestroy, CbFail): %s"
-                    % (invs, len(cfgs), [c[:4] + (len(c[4]),) for c in cfgs])}
+                    % (" ".join(own), len(cfgs), [c[:4] + (len(c[4]),) for c in cfgs])}
 
 
 # (MaxTx, QUnits, SUnits, MaxAvail, AutoDestroy)
